@@ -314,6 +314,38 @@ func init() {
 			},
 		}
 		st := e1.BFS(cfg)
+		// every call of the alphabet on a store that rejects the commit while the change log has retention work pending
+		// (three aged events, limits 1..2: the commit of the call would also trim the log): the error is reported and
+		// nothing differs afterwards, the change log included; then the same call again on the working store
+		var agedFaults int64
+		for _, call := range calls {
+			if _, isBatch := batches[call.Name]; isBatch || r.TooMany() {
+				continue
+			}
+			wa := c09NewWorldSized(1, 2)
+			b0 := wa.DumpAll()
+			wa.Store.FailNext = 1
+			o := call.Do(wa)
+			struck := wa.Store.FailNext == 0
+			wa.Store.FailNext = 0
+			if struck {
+				agedFaults++
+				rep := bson.M{"calls": []string{call.Name}, "world": "aged change log, retention 1..2, store failing once"}
+				if strings.HasPrefix(o, "ok") {
+					r.Violation("store-failure-not-reported:"+callKind(call.Name), fmt.Sprintf("%s returned %q although the store rejected its commit (database with an aged change log)", call.Name, o), rep)
+				} else if a0 := wa.DumpAll(); a0 != b0 {
+					r.Violation("failed-commit-changed-state:"+callKind(call.Name), fmt.Sprintf("%s failed in the store (%s) on a database whose change log had events to trim, and the visible database changed:\n%s", call.Name, o, firstDiff(b0, a0)), rep)
+				}
+				if o2 := call.Do(wa); !strings.HasPrefix(o2, "ok") {
+					r.Violation("call-after-failed-commit:"+callKind(call.Name), fmt.Sprintf("%s failed in the store, the same call on the working store then returns %q", call.Name, o2), rep)
+				}
+				for _, pr := range coherenceProblems(wa.Engine.Catalog()) {
+					r.Violation("after-failed-commit:"+pr.class+":"+callKind(call.Name), pr.what+" after "+call.Name+" failed in the store and was repeated", rep)
+				}
+			}
+			wa.Close()
+		}
+		r.Set("calls_on_a_failing_store_with_retention_pending", agedFaults)
 		r.Set("states", st.States)
 		r.Set("transitions", st.Transitions)
 		r.Set("traces_validated_against_impl", st.Transitions)
